@@ -1,6 +1,6 @@
 (* Executable model of src/ds/qarray.c + include/qthread/qarray.h (C17).
-   Concrete layer: mirrors the code branch by branch, including the behaviour of
-   the striders on ranges that do not start on a segment boundary. *)
+   Concrete layer: mirrors the code branch by branch (the striders as repaired by the
+   fix: commit that makes chunks stop at segment ends and FIXED_FIELDS use the shepherd's region). *)
 From Coq Require Import List NArith Bool Lia.
 Import ListNotations.
 Local Open Scope N_scope.
@@ -125,15 +125,17 @@ Section WithEnv.
     | O => []
     | S f =>
         let ss := d_segsize a in
-        let mo := if ss <? max - count then ss else max - count in
+        let seg_left := ss - count mod ss in      (* count may start inside a segment *)
+        let mo := if seg_left <? max - count then seg_left else max - count in
+        let c0 := count - count mod ss in         (* step from the start of this segment *)
         (count, count + mo) ::
         match d_kind a with
         | FIXED_FIELDS | ALL_SAME =>
-            let c := count + ss in if max <=? c then [] else chunks f a shep c max
+            let c := c0 + ss in if max <=? c then [] else chunks f a shep c max
         | FIXED_HASH =>
-            let c := count + ss * nsheps in if max <=? c then [] else chunks f a shep c max
+            let c := c0 + ss * nsheps in if max <=? c then [] else chunks f a shep c max
         | DIST =>
-            let c := count + ss in
+            let c := c0 + ss in
             if max <=? c then [] else
             match seek f a shep c max with
             | None => []
@@ -144,42 +146,50 @@ Section WithEnv.
 
   Definition fuel_of (a : desc) (stop : N) : nat := S (S (N.to_nat (stop / d_segsize a))).
 
+  (* qarray_internal_fields_region: [first, end) of the indices whose segments belong to shep (FIXED_FIELDS) *)
+  Definition fields_region (a : desc) (shep : N) : N * N :=
+    let ss := d_segsize a in
+    let first := if shep <? d_extras a then shep * ss * (d_sps a + 1)
+                 else d_extras a * ss * (d_sps a + 1) + (shep - d_extras a) * ss * d_sps a in
+    let segs_here := d_sps a + (if shep <? d_extras a then 1 else 0) in
+    (first, first + ss * segs_here).
+
+  (* the common FIXED_FIELDS prologue of the three striders: my part [c, m) of [start, stop), if any *)
+  Definition fields_part (a : desc) (shep start stop : N) : option (N * N) :=
+    let s0 := shepof a start in let s1 := shepof a (stop - 1) in
+    if (shep <? s0) || (s1 <? shep) then None else
+    let '(first, rend) := fields_region a shep in
+    let c := if shep =? s0 then start else first in
+    let m := if rend <? stop then rend else stop in
+    Some (c, m).
+
   (* qarray_strider (per-element iteration): ranges of indices visited on [shep] *)
   Definition strider (a : desc) (shep start stop : N) : list (N * N) :=
-    let ss := d_segsize a in
     let fuel := fuel_of a stop in
     match d_kind a with
     | ALL_SAME => if shep =? d_shep a then chunks fuel a shep start stop else []
     | FIXED_FIELDS =>
-        let s0 := shepof a start in let s1 := shepof a (stop - 1) in
-        if (shep <? s0) || (s1 <? shep) then [] else
-        let c := if shep =? s0 then start
-                 else if shep <? d_extras a then shep * ss * (d_sps a + 1)
-                      else d_extras a * ss * (d_sps a + 1) + (shep - d_extras a) * ss * d_sps a in
-        let segs_here := d_sps a + (if shep <? d_extras a then 1 else 0) in
-        let last := c + (ss * segs_here - 1) in
-        let m := if last <? stop then last + 1 else stop in
-        chunks fuel a shep c m
+        match fields_part a shep start stop with
+        | None => []
+        | Some (c, m) => chunks fuel a shep c m
+        end
     | _ => match seek_start fuel a shep start stop with
            | None => []
            | Some c => chunks fuel a shep c stop
            end
     end.
 
-  (* qarray_loop_strider / _constloop_strider / _loopaccum_strider: (lo,hi) pairs handed to the
-     user's loop function (a pair with hi <= lo is an empty call) *)
+  (* qarray_loop_strider / _loopaccum_strider (the constloop entry uses the loop strider): (lo,hi) pairs handed
+     to the user's loop function *)
   Definition loop_strider (a : desc) (shep start stop : N) : list (N * N) :=
-    let ss := d_segsize a in
     let fuel := fuel_of a stop in
     match d_kind a with
     | ALL_SAME => if shep =? d_shep a then [(start, stop)] else []
     | FIXED_FIELDS =>
-        let s0 := shepof a start in let s1 := shepof a (stop - 1) in
-        if (shep <? s0) || (s1 <? shep) then [] else
-        let c := if shep =? s0 then start else shep * ss * d_sps a in
-        let last := (shep + 1) * ss * d_sps a - 1 in
-        let m := if last <? stop then last else stop in
-        [(c, m)]
+        match fields_part a shep start stop with
+        | None => []
+        | Some (c, m) => [(c, m)]
+        end
     | _ => match seek_start fuel a shep start stop with
            | None => []
            | Some c => chunks fuel a shep c stop
@@ -193,7 +203,7 @@ Section WithEnv.
     | FIXED_FIELDS =>
         let s0 := shepof a start in let s1 := shepof a (stop - 1) in
         map N.of_nat (seq (N.to_nat s0) (S (N.to_nat s1) - N.to_nat s0))
-    | _ => if stop - start <? d_segsize a then [shepof a start]
+    | _ => if start / d_segsize a =? (stop - 1) / d_segsize a then [shepof a start]
            else map N.of_nat (seq 0 (N.to_nat nsheps))
     end.
 
